@@ -106,8 +106,11 @@ impl MolecularShape2 {
 
     fn circle_overlap(a1: &Atom2, a2: &Atom2) -> f64 {
         let distance = nalgebra::distance(&a1.position, &a2.position);
+        if distance <= f64::abs(a1.radius - a2.radius) {
+            // One circle lies within the other, the overlap is the whole smaller circle
+            PI * f64::min(a1.radius, a2.radius).powi(2)
         // There is some overlap between the circles which needs to be calculated
-        if distance < a1.radius + a2.radius {
+        } else if distance < a1.radius + a2.radius {
             let d1 = (distance.powi(2) + a1.radius.powi(2) - a2.radius.powi(2)) / (2. * distance);
             let d2 = (distance.powi(2) + a2.radius.powi(2) - a1.radius.powi(2)) / (2. * distance);
             Self::overlap_area(a1.radius, d1) + Self::overlap_area(a2.radius, d2)
